@@ -242,6 +242,33 @@ def _check_dtmem(run, repo, world):
                 node = n
         if node is None:
             raise AnalysisError("decode site not in CFG of %s" % q)
+        # the memory itself: a local that only copies `self.<attr>` stands
+        # for that attribute, and the pass consumes the memory where the
+        # copy is taken
+        read_node = None
+        if dtvar.isidentifier():
+            cps = [n for n in cfg.reachable if n.kind == "stmt" and
+                   isinstance(n.ast, ast.Assign) and any(
+                       unparse(t) == dtvar for t in n.ast.targets)]
+            if len(cps) == 1 and len(cps[0].ast.targets) == 1:
+                v_ = cps[0].ast.value
+                r_ = v_
+                while isinstance(r_, ast.Attribute):
+                    r_ = r_.value
+                if isinstance(v_, ast.Attribute) and isinstance(
+                        r_, ast.Name) and r_.id == "self":
+                    read_node = cps[0]
+                    dtvar = unparse(v_)
+        if read_node is not None:
+            # the copy is taken only on passes that decode with it
+            miss = _path_avoiding(cfg, read_node, {node.id})
+            run.ob("R-DTMEM", "%s#%s-read-then-decoded" % (q, dtvar),
+                   miss is None,
+                   "the device-type memory `%s` is taken (and may be "
+                   "cleared) on a pass of the handler that decodes nothing "
+                   "(%s): an EnableDeviceType seen just before is forgotten"
+                   % (dtvar, path_str(miss, 8) if miss else ""),
+                   where(mod, read_node))
         # forms of the assignments to dtvar
         forms_ok = True
         forms = []
@@ -289,6 +316,8 @@ def _check_dtmem(run, repo, world):
                     if n.ast is not None and n.kind == "stmt" and any(
                             x is c_b for x in _walk_no_nested(n.ast)):
                         dec_ids.add(n.id)
+        if read_node is not None:
+            dec_ids = {read_node.id}
         stray = _assign_without_decode(cfg, dtvar, dec_ids)
         run.ob("R-DTMEM", "%s#%s-only-after-decode" % (q, dtvar),
                stray is None,
@@ -298,7 +327,7 @@ def _check_dtmem(run, repo, world):
                "decoded as an ordinary one" % (
                    dtvar, path_str(stray[1], 8) if stray else ""),
                where(mod, stray[0]) if stray else where(mod, c))
-        bad = _path_without_assign(cfg, node, dtvar)
+        bad = _path_without_assign(cfg, read_node or node, dtvar)
         run.ob("R-DTMEM", "%s#%s" % (q, dtvar), bad is None and forms_ok,
                "%s" % ("after decoding under `%s`, the handler can be left "
                        "without re-assigning it (%s): the NEXT frame is then "
@@ -371,6 +400,31 @@ def _dominating_isinstance(cfg, node, var, world, modname):
     return "edt" in IN.get(node.id, ())
 
 
+def _path_avoiding(cfg, start, avoid_ids):
+    """A normal path from start to the function exit that passes none of
+    the nodes in avoid_ids.  Returns node list or None."""
+    prev, seen, stack = {}, set(), [m for (l, m) in start.succ if l != "exc"]
+    for m in stack:
+        prev[m.id] = start
+    while stack:
+        n = stack.pop()
+        if n.id in seen or n.id in avoid_ids:
+            continue
+        seen.add(n.id)
+        if n is cfg.exit:
+            path = [n]
+            while path[-1] is not start and path[-1].id in prev:
+                path.append(prev[path[-1].id])
+            return list(reversed(path))
+        for (l, m) in n.succ:
+            if l == "exc":
+                continue
+            if m.id not in prev:
+                prev[m.id] = n
+            stack.append(m)
+    return None
+
+
 def _path_without_assign(cfg, start, dtvar):
     """A path from start (its normal or exceptional successors) to the
     function exit, raise exit or a loop head that is not dominated by start,
@@ -408,14 +462,105 @@ def _path_without_assign(cfg, start, dtvar):
     return None
 
 
+def _check_wake_clear(run, repo, world):
+    """The watcher's data-available event is level-triggered: every wait on
+    it is followed by clear() before the watcher waits again, otherwise the
+    next (timed) wait returns at once and is taken for an elapsed timeout -
+    a query is reported as unanswered although its 200 ms have not passed."""
+    from ..drv import expand_method
+    mod = repo.mod(HID)
+    c = world.cls(HID + ".tridonic")
+    fn = expand_method(world, c, c.methods["_bus_watch"][1],
+                       aliases="params")
+    Q = HID + ".tridonic._bus_watch"
+    cfg = CFG(fn, may_raise=suspension_may_raise, name=Q)
+    EV = "self._bus_watch_data_available"
+
+    def has(node, meth):
+        if node.ast is None or node.kind not in ("stmt", "test"):
+            return False
+        return any(isinstance(x, ast.Call) and unparse(x.func) ==
+                   "%s.%s" % (EV, meth) for x in _walk_no_nested(node.ast))
+
+    def transfer(node, st):
+        if has(node, "clear"):
+            st = st - {"woken"}
+        if has(node, "wait"):
+            st = st | {"woken"}
+        return st
+    W = forward_worlds(cfg, transfer, None)
+    waits = [n for n in cfg.reachable if has(n, "wait")]
+    run.floor("waits on the watcher's data-available event", len(waits), 1)
+    for n in waits:
+        bad = W.worlds_with(n, lambda w: "woken" in w)
+        run.ob("R-REPORT", "%s#event-cleared-before-next-wait@L%s" % (
+            Q, "timed" if "wait_for" in unparse(n.ast) else "untimed"),
+            not bad,
+            "this wait on %s can be reached with the event still set by an "
+            "earlier wake-up (no clear() on the way): it returns at once "
+            "and the empty queue is read as an elapsed timeout: %s" % (
+                EV, path_str(W.trace(n, bad[0])[-8:], 8) if bad else ""),
+            where(mod, n))
+
+
+def _bus_watch_roles(fn):
+    """Locals of the watcher renamed after the role they play, so that the
+    rules do not depend on what a local is called:
+      C = <...>.from_frame(F, ...)       C -> command, F -> frame
+      P = C                              P -> current_command (the stash)
+      if ..: T = True / else: T = False  T -> timeout
+    Returns a renamed copy (fn itself when nothing has to be renamed or a
+    canonical name is already used for something else)."""
+    ren = {}
+    for n in ast.walk(fn):
+        if isinstance(n, ast.Assign) and len(n.targets) == 1 and isinstance(
+                n.targets[0], ast.Name) and isinstance(
+                    n.value, ast.Call) and unparse(n.value.func).endswith(
+                        "from_frame"):
+            ren[n.targets[0].id] = "command"
+            if n.value.args and isinstance(n.value.args[0], ast.Name):
+                ren[n.value.args[0].id] = "frame"
+    cmd = [k for k, v in ren.items() if v == "command"]
+    for n in ast.walk(fn):
+        if isinstance(n, ast.Assign) and len(n.targets) == 1 and isinstance(
+                n.targets[0], ast.Name) and isinstance(
+                    n.value, ast.Name) and n.value.id in cmd and \
+                n.targets[0].id not in cmd:
+            ren[n.targets[0].id] = "current_command"
+        if isinstance(n, ast.If):
+            def flag(stmts, val):
+                return {s_.targets[0].id for s_ in stmts if isinstance(
+                    s_, ast.Assign) and len(s_.targets) == 1 and isinstance(
+                        s_.targets[0], ast.Name) and isinstance(
+                            s_.value, ast.Constant) and s_.value.value is val}
+            both = flag(n.body, True) & flag(n.orelse, False)
+            if len(both) == 1:
+                ren[both.pop()] = "timeout"
+    ren = {k: v for k, v in ren.items() if k != v}
+    if not ren:
+        return fn
+    taken = {n.id for n in ast.walk(fn) if isinstance(n, ast.Name)} | {
+        a.arg for a in fn.args.args + fn.args.kwonlyargs}
+    if any(v in taken and v not in ren for v in ren.values()) or len(
+            set(ren.values())) != len(ren):
+        return fn
+    from ..inline import acopy
+    fn = acopy(fn)
+    for n in ast.walk(fn):
+        if isinstance(n, ast.Name) and n.id in ren:
+            n.id = ren[n.id]
+    return fn
+
+
 # ---------------------------------------------------------------------------
 def _check_report(run, repo, world):
     run.rule("R-REPORT", "Tridonic watcher: pending command reported exactly "
              "once before being cleared; fresh command stashed xor reported; "
              "failure flag matches the branch")
     mod = repo.mod(HID)
+    _check_wake_clear(run, repo, world)
     r = world.method(HID + ".tridonic", "_bus_watch")
-    fn = r[2]
+    fn = _bus_watch_roles(r[2])
     Q = HID + ".tridonic._bus_watch"
     cfg = CFG(fn, may_raise=suspension_may_raise, name=Q)
     cet = cond_edge_transfer()
@@ -733,6 +878,46 @@ def _check_subs(run, repo, world):
            where(mod, cb.node))
     smod = repo.mod(SER)
     dq = world.cls(SER + ".DistributorQueue")
+    # a subscription lasts until it is cancelled: the registries hold their
+    # entries strongly (a weak container drops a subscriber whose handle or
+    # queue the caller did not keep)
+    for (cls_, attr, m_) in ((cb, "_callbacks", mod), (dq, "_handlers",
+                                                       smod)):
+        inits = []
+        for name_, (kind_, f_) in cls_.methods.items():
+            for n in ast.walk(f_):
+                if isinstance(n, ast.Assign) and any(
+                        unparse(t) == "self." + attr for t in n.targets):
+                    inits.append(n.value)
+                elif isinstance(n, ast.AnnAssign) and unparse(
+                        n.target) == "self." + attr and n.value is not None:
+                    inits.append(n.value)
+        if not inits:
+            raise AnalysisError("registry %s.%s is never initialised"
+                                % (cls_.qname, attr))
+        strong = True
+        weak_names = {"weakref"}
+        for n in ast.walk(repo.mod(cls_.mod).tree):
+            if isinstance(n, ast.ImportFrom) and n.module == "weakref":
+                weak_names |= {a.asname or a.name for a in n.names}
+            elif isinstance(n, ast.Import):
+                weak_names |= {a.asname for a in n.names
+                               if a.name == "weakref" and a.asname}
+        for v in inits:
+            # the container is weak iff it is built by something of the
+            # weakref module (the only weak containers there are)
+            for x in ast.walk(v):
+                if isinstance(x, ast.Call):
+                    r_ = x.func
+                    while isinstance(r_, ast.Attribute):
+                        r_ = r_.value
+                    if isinstance(r_, ast.Name) and r_.id in weak_names:
+                        strong = False
+        run.ob("R-SUBS", "%s.%s#held-strongly" % (cls_.qname, attr), strong,
+               "the subscriber registry is a weak container: a subscriber "
+               "that does not keep the returned handle / queue alive is "
+               "silently unsubscribed by garbage collection",
+               where(m_, cls_.node))
     add = dq.methods["add_handler"][1]
     dele = dq.methods["del_handler"][1]
     dist = dq.methods["distribute"][1]
